@@ -46,7 +46,7 @@ ORIGINS = {
 
 def main():
     matrix = {}
-    for fn in ("MATRIX_quick.txt", "MATRIX_round2.txt"):
+    for fn in ("MATRIX_quick.txt", "MATRIX_round2.txt", "MATRIX_round3.txt"):
         p = os.path.join(S, fn)
         if not os.path.exists(p):
             continue
@@ -58,6 +58,10 @@ def main():
     p2 = os.path.join(S, "round2_info.json")
     if os.path.exists(p2):
         extra = json.load(open(p2))
+    extra3 = {}
+    p3 = os.path.join(S, "round3_info.json")
+    if os.path.exists(p3):
+        extra3 = json.load(open(p3))
     rows = []
     for name in sorted(os.listdir(S)):
         d = os.path.join(S, name)
@@ -69,6 +73,9 @@ def main():
         elif name in extra:
             prop, what, needs = extra[name]
             origin = "sub-agent (property text + private worktree only), round 2"
+        elif name in extra3:
+            prop, what, needs = extra3[name]
+            origin = "sub-agent (property text + private worktree only), round 3"
         elif name in ORIGINS:
             prop, what, needs = ORIGINS[name]
             origin = "reverse of a fix: commit in /repo"
